@@ -13,7 +13,7 @@ import itertools
 import warnings
 import numpy as np
 from .common import import_repo, length_vectors
-from .raggedutil import (ALL_DTYPES, dtclass, alphabet, cells, mk, num_eq, seq_eq, short, float_rtol, Unsupported,
+from .raggedutil import (ALL_DTYPES, dtclass, cells, mk, num_eq, seq_eq, short, float_rtol, Unsupported,
                          nonempty_variant, rows_class, vals_class, refine)
 
 PROPERTY = "C09"
